@@ -17,6 +17,7 @@ EXPLANATION = (
     "dH(eps)=H(LF_eps(t,r))-H(t,r) has dH(0)=dH'(0)=dH''(0)=0 (energy error is O(eps^3) per trajectory, i.e. shrinks "
     "at least quadratically); kinetic_energy(sample_momentum(z)) == z.z/2 for each mass class; finite_diff never divides "
     "by zero and on quadratic potentials is within the first-order forward-difference error bound of the true gradient."
+    ' finite_diff accuracy is also asserted for chains with parameter limits (any point of the closed box, any width).'
 )
 BOUNDS = {"quick": "dimension <=2, <=2 leapfrog steps (volume/energy: d<=2, 1-2 steps)",
           "thorough": "dimension <=3, <=3 leapfrog steps; matrix mass d=2"}
@@ -149,11 +150,17 @@ def kinetic_energy_matches_momentum_law(h, d, mass):
     h.eq("hamiltonian == kinetic - L/T", chain.hamiltonian(t, r), 0.5 * (z @ z) - chain.posterior(t) * chain.inv_temp)
 
 
-@unit("C07", quick=[dict(d=1), dict(d=2)], thorough=[dict(d=3)])
-def finite_difference_gradient(h, d):
-    """no gradient supplied: estimate defined at every point (zero coordinates included) and accurate"""
+@unit("C07", quick=[dict(d=1), dict(d=2), dict(d=1, bounded=True), dict(d=2, bounded=True)], thorough=[dict(d=3)])
+def finite_difference_gradient(h, d, bounded=False):
+    """no gradient supplied: estimate defined at every point (zero coordinates included; with parameter limits: any point
+    of the closed box, next to either wall, any box width) and accurate"""
     ev = mc.Events()
-    hmc, chain, post, grad, T, start, eps, im = mc.make_hmc(h, d, ev, use_grad=False)
+    if bounded:
+        lo = h.real("lo", d)
+        up = lo + h.real("wd", d, pos=True)
+        hmc, chain, post, grad, T, start, eps, im = mc.make_hmc(h, d, ev, use_grad=False, bounds=(lo, up))
+    else:
+        hmc, chain, post, grad, T, start, eps, im = mc.make_hmc(h, d, ev, use_grad=False)
     h.covers(hmc.HamiltonianChain.finite_diff)
     c0 = h.real("c0")
     b = h.real("b", d)
@@ -164,7 +171,7 @@ def finite_difference_gradient(h, d):
         t = np.asarray(t)
         return c0 + b @ t + 0.5 * (t @ (A @ t))
     chain.posterior = quad
-    t = h.real("t", d)
+    t = lo + h.real("tf", d, lo=0, hi=1) * (up - lo) if bounded else h.real("t", d)
     m = h.mark()
     G = chain.finite_diff(t.copy())
     h.defined("finite_diff is defined for every t (no division by zero)", G, since=m)
